@@ -36,45 +36,6 @@ theorem double_dash (toks : List Tok) (hok : ∀ t ∈ toks, t.Ok)
       = .run (toks.foldl Tok.apply {}) (toks.filterMap Tok.arg ++ vals.map (·.2)) :=
   parse_spec_dashdash toks hok vals hv
 
-/-- the calendar a token selects, if any -/
-def calOf : Tok → Option Calendar
-  | .short .julian | .long .julian => some .julian
-  | .reformShort _ _ c | .reformLong _ _ c | .reformAttached _ _ _ c | .reformLongEq _ _ c => some c
-  | .cluster fs => if fs.contains .julian then some .julian else none
-  | _ => none
-
-theorem flag_beq (a b : Flag) : (a == b) = decide (a = b) := rfl
-
-theorem flags_calendar (fs : List Flag) (o : Options) :
-    (fs.foldl Flag.apply o).calendar = if fs.contains .julian then .julian else o.calendar := by
-  induction fs generalizing o with
-  | nil => rfl
-  | cons f fs ih =>
-    simp only [List.foldl_cons, ih, List.contains_cons]
-    cases f <;> simp [Flag.apply] <;> split <;> rfl
-
-theorem flags_switches (fs : List Flag) (o : Options) :
-    (fs.foldl Flag.apply o).json = (o.json || fs.contains .json)
-    ∧ (fs.foldl Flag.apply o).ordinal = (o.ordinal || fs.contains .ordinal)
-    ∧ (fs.foldl Flag.apply o).quiet = (o.quiet || fs.contains .quiet)
-    ∧ (fs.foldl Flag.apply o).style = (o.style || fs.contains .style) := by
-  induction fs generalizing o with
-  | nil => simp
-  | cons f fs ih =>
-    obtain ⟨h1, h2, h3, h4⟩ := ih (f.apply o)
-    simp only [List.foldl_cons, h1, h2, h3, h4, List.contains_cons]
-    cases f <;> simp [Flag.apply, flag_beq]
-
-theorem apply_calendar (o : Options) (t : Tok) :
-    (t.apply o).calendar = (calOf t).getD o.calendar := by
-  cases t with
-  | short f => cases f <;> rfl
-  | long f => cases f <;> rfl
-  | cluster fs =>
-    simp only [Tok.apply, calOf, flags_calendar]
-    split <;> rfl
-  | _ => rfl
-
 /-- **the last -j / -r wins, wherever options stand**: the selected calendar is the one
 chosen by the last calendar-selecting option, Gregorian if there is none -/
 theorem last_calendar_wins (toks : List Tok) (o : Options) :
@@ -89,12 +50,6 @@ theorem last_calendar_wins (toks : List Tok) (o : Options) :
     | none =>
       simp only [Option.getD_none, Option.none_or, List.findSome?_cons, List.findSome?_nil]
       cases calOf t <;> rfl
-
-/-- does the token set switch `f`? -/
-def has (f : Flag) : Tok → Bool
-  | .short g | .long g => g == f
-  | .cluster fs => fs.contains f
-  | _ => false
 
 /-- the output switches are set exactly when they occur somewhere on the command line -/
 theorem switches_any_position (toks : List Tok) (o : Options) :
